@@ -32,8 +32,9 @@
 EXTENDS GeoIP
 
 VARIABLE l
-Trace == ndJsonDeserialize("trace.ndjson")
+TraceFromDisk == ndJsonDeserialize("trace.ndjson")
 TraceFiles == ndJsonDeserialize("geoip_files.ndjson")
+Trace == TLCGet(3)
 TConf == [id |-> "", hostcap |-> 0, ipcap |-> 1, tops |-> [c \in {} |-> 0], alltop |-> {}]
 tvars == <<vars, l>>
 E == Trace[l]
@@ -57,14 +58,14 @@ ChgOK == Why(E.chg = <<>>, <<"LocationsAreValues: an answer returned earlier was
 LenReport == LET bad == {e \in Proj(loc4') \cup Proj(c4') : e.p.n # 24} \cup {e \in Proj(loc6') \cup Proj(c6') : e.p.n # 56}
              IN  IF bad = {} THEN TRUE ELSE PrintT(<<"NONCONF", l, <<"DesiredLength", bad>>>>)
 
-TraceInit == Fresh(TConf) /\ hist = <<>> /\ l = 1 /\ TLCSet(1, 1)
+TraceInit == LoadFiles /\ TLCSet(3, TraceFromDisk) /\ Fresh(TConf) /\ hist = <<>> /\ l = 1 /\ TLCSet(1, 1)
 
 TopsOf(s) == [c \in {p[1] : p \in SetOf(s)} |-> (CHOOSE p \in SetOf(s) : p[1] = c)[2]]
 
 TraceReset ==
     /\ Consume("Reset")
     /\ conf' = [id |-> E.world, hostcap |-> E.hostcap, ipcap |-> E.ipcap, tops |-> TopsOf(E.tops), alltop |-> SetOf(E.alltop)]
-    /\ disk' = [A |-> 0, C |-> 0] /\ dbA' = 0 /\ dbC' = 0
+    /\ disk' = [A |-> E.disk[1], C |-> E.disk[2]] /\ dbA' = 0 /\ dbC' = 0
     /\ loc4' = {} /\ loc6' = {} /\ c4' = {} /\ c6' = {} /\ locTag' = <<0, 0>> /\ ctryTag' = 0
     /\ ipc' = <<>> /\ hostc' = <<>> /\ heap' = <<>> /\ rf' = [r \in Refreshers |-> IdleRf] /\ snaps' = {}
     /\ lastr' = NoR /\ lastd' = NoD /\ lasts' = NoS /\ nput' = 0 /\ nref' = 0 /\ hist' = hist
@@ -108,6 +109,7 @@ TraceRSwapCtry == /\ Consume("RSwapCtry") /\ RSwapCtry(E.r) /\ ChgOK /\ ObsLight
 TraceRJoin == /\ Consume("RJoin") /\ RJoin(E.r) /\ JoinOutcome /\ ChgOK /\ ObsLight(E.obs) /\ ObsMaps(E.obs) /\ Mark
 TraceRSwapDB == /\ Consume("RSwapDB") /\ RSwapDB(E.r)
                 /\ Why(E.err = "", <<"Refresh returned an error after the swap", E.err>>)
+                /\ Why(E.mids = <<>>, <<"ReadersSeeOneVersion: the swap takes more than one critical section; visible in between", E.mids>>)
                 /\ ChgOK /\ ObsLight(E.obs) /\ ObsMaps(E.obs) /\ Mark
 
 LocOf(g) == [ctry |-> g.ctry, cont |-> g.cont, sub |-> g.sub, asn |-> g.asn]
@@ -139,12 +141,39 @@ SubnetReasons(e) ==
         \cup (IF e.lp > 0 /\ LocOf(e.l) # ll THEN {<<"the location behind the pointer is not what Data returned", ll>>} ELSE {})
         \cup (IF e.own # <<>> THEN {<<"SubnetByLocation wrote to the location it was given", e.own>>} ELSE {})
 
+SubnetStep(e) == Decide(IF e.fam = 4 THEN loc4 ELSE loc6, IF e.fam = 4 THEN c4 ELSE c6, conf.tops,
+                        IF e.lp > 0 /\ e.lp <= Len(heap) THEN heap[e.lp].cur ELSE LocOf(e.l), e.fam).step
 TraceSubnet ==
     /\ Consume("Subnet") /\ UNCHANGED vars
     /\ ChgOK /\ ObsLight(E.obs) /\ Mark
     /\ LET r == SubnetReasons(E) IN IF r = {} THEN TRUE ELSE PrintT(<<"NONCONF", l, r>>)
+    /\ PrintT(<<"STEP", l, SubnetStep(E)>>)
 
-TraceNext == \/ TraceReset \/ TraceEnd \/ TracePut \/ TraceRStart \/ SilentRStart \/ SilentSwap \/ SilentJoin
+(* concurrent readers (no gates): every line is judged against the pairs of versions in force during the call *)
+CReadReasons(e) ==
+    LET ua == Unmap(e.ip)
+        ok == \E pr \in SetOf(e.pairs) :
+                 LET res == Lookup(pr[1], pr[2], ua, 0, 0)
+                 IN  res.err = e.err /\ (IF res.err # "" THEN e.got.nil ELSE ~e.got.nil /\ res.loc = LocOf(e.got))
+    IN  IF ok THEN {} ELSE {<<"ReadersSeeOneVersion: the answer is not the data of any pair of databases in force during the call",
+                              {Lookup(pr[1], pr[2], ua, 0, 0) : pr \in SetOf(e.pairs)}>>}
+CSubnetReasons(e) ==
+    LET ll == LocOf(e.l)
+        cands == UNION {UNION {
+                   LET lm == BuildLoc(pl[1], pl[2], conf.alltop, e.fam)
+                       cm == BuildCtry(pc[2], e.fam)
+                   IN  {x.p : x \in Decide(lm, cm, conf.tops, ll, e.fam).set} \cup {x.p : x \in DecideCode(lm, cm, conf.tops, ll, e.fam).set}
+                   : pc \in SetOf(e.pairs)} : pl \in SetOf(e.pairs)}
+    IN  IF e.sn \in cands /\ e.err = "" THEN {} ELSE {<<"the subnet comes from none of the derived maps in force during the call", cands>>}
+TraceCRead == /\ Consume("CRead") /\ UNCHANGED vars /\ Mark
+              /\ LET r == CReadReasons(E) IN IF r = {} THEN TRUE ELSE PrintT(<<"NONCONF", l, r>>)
+TraceCSubnet == /\ Consume("CSubnet") /\ UNCHANGED vars /\ Mark
+                /\ LET r == CSubnetReasons(E) IN IF r = {} THEN TRUE ELSE PrintT(<<"NONCONF", l, r>>)
+TraceCEnd == Consume("CEnd") /\ UNCHANGED vars /\ Mark
+TraceProbe == Consume("Probe") /\ UNCHANGED vars /\ Mark
+
+TraceNext == \/ TraceCRead \/ TraceCSubnet \/ TraceCEnd \/ TraceProbe
+             \/ TraceReset \/ TraceEnd \/ TracePut \/ TraceRStart \/ SilentRStart \/ SilentSwap \/ SilentJoin
              \/ TraceRSwapLoc \/ TraceRSwapCtry \/ TraceRJoin \/ TraceRSwapDB \/ TraceData \/ TraceSubnet
 TraceSpec == TraceInit /\ [][TraceNext]_tvars
 
